@@ -186,7 +186,7 @@ def run(model, rep, tier):
     except (AnalysisError, KeyError, TypeError, ValueError) as e:
         rep.blind("R-09.3", "dns.node._neutral_types", "dns/node.py", f"the exclusivity tables could not be folded: {e}", stmt="node-filter-tables")
     rep.assume("equality of the re-read zone and agreement of equivalent spellings are behavioural and are not decided here")
-    rep.share(model, "C05", {"R-05.6"}, "R-09.7", "the zone reader hands (current origin, relativize, zone origin) to dns.rdata.from_text for every record")
+    rep.share(model, "C05", {"R-05.4", "R-05.6"}, "R-09.7", "the zone reader hands (current origin, relativize, zone origin) to dns.rdata.from_text for every record")
     rep.share(model, "C05", {"R-05.1t", "R-05.2"}, "R-09.4", "zone text is written with dns.rdata._escapify and read with Token.unescape_to_bytes")
     from rules.common import token_loops_end_at_eof
     token_loops_end_at_eof(model, rep, "R-09.5")
